@@ -87,8 +87,8 @@ func absResource(typ string, raw interface{}) rec {
 		return rec{"t": "model", "m": ps}
 	}
 	var c []json.RawMessage
-	if json.Unmarshal(b, &c) != nil {
-		return rec{"t": "bad"}
+	if json.Unmarshal(b, &c) != nil || c == nil {
+		return rec{"t": "bad"} // (null is not a collection: an empty one is [])
 	}
 	out := []string{}
 	for _, e := range c {
